@@ -128,7 +128,64 @@ def judge(p, flags, limit, ev, tag):
     return None
 
 
+def seq_worker(case):
+    """Several markings in a row on ONE context: the file content is replaced behind the library's back, the scan repeated,
+    and a new request computed - every request is judged against the marking in force when it was made."""
+    cdir = case["dir"]
+    keep = False
+    data = core.unb64(case["data"])
+    p = zckref.parse(data)
+    r = core.rng(case["seed"], "C10", case["name"])
+    cid = core.h8([case["name"], "seq", case["vectors"], case["limits"]])
+    stats = {"evaluations": 0, "multi_step_sequences": 1}
+    try:
+        files = {}
+        L = []
+        lims = []
+        for vi, vec in enumerate(case["vectors"]):
+            files["s%d.bin" % vi] = apply_vector(data, p, vec, r)
+            if vi == 0:
+                files["t.zck"] = files["s0.bin"]
+                L += ["fopen 1 t.zck rw target", "create 1", "init_read 1 1"]
+            else:
+                L += ["fput 1 s%d.bin" % vi]
+            L += ["fv 1", "reset_failed 1", "flags 1"]
+            for lim in case["limits"][vi]:
+                L += ["range 2 1 %d" % lim, "range_free 2"]
+                lims.append(lim)
+        rd = core.run_zh(case["zh"], cdir, "\n".join(L) + "\n", files, name="seq")
+        if rd.timed_out and not rd.cpu_exceeded:
+            return core.verdict(cid, "inconclusive", detail="watchdog", case=case)
+        cs = core.crash_signatures(rd)
+        viol = None
+        flags = None
+        li = 0
+        step = -1
+        for e in rd.events:
+            if e.get("op") == "flags":
+                flags = e["valid"]
+                step += 1
+            elif e.get("op") == "range" and flags is not None:
+                stats["evaluations"] += 1
+                v = judge(p, flags, lims[li], e, "multi-step")
+                li += 1
+                if v and not viol:
+                    viol = (v[0], v[1] + " (step %d of the sequence, markings so far %s)" % (step, case["vectors"][:step + 1]))
+        if cs:
+            viol = (cs[0], "sanitizer/crash in %s: %s" % (rd.open_call, cs))
+        elif not rd.ended and not viol:
+            return core.verdict(cid, "inconclusive", detail="harness did not finish: %s" % (rd.harness_error,), case=case)
+        if viol:
+            keep = True
+            return core.verdict(cid, "violated", [viol[0]], stats, detail=viol[1] + " base=%s" % case["name"], cdir=cdir, case=case)
+        return core.verdict(cid, "held", stats=stats, nontrivial=[cid], sample={"base": case["name"], "sequence_of_markings": case["vectors"], "limits": case["limits"]})
+    finally:
+        core.cleanup_case(cdir, keep)
+
+
 def worker(case):
+    if case.get("seq"):
+        return seq_worker(case)
     cdir = case["dir"]
     keep = False
     data = core.unb64(case["data"])
@@ -252,6 +309,28 @@ class C10(core.Check):
         p = zckref.parse(data)
         vecs = [[r.choice([0, 1]) for _ in p.chunks] for _ in range(40)]
         add("trunc", data, vecs, LIMITS, "small", truncate=True)
+        # --- several markings in a row on one context (chunks in front of earlier requests become missing again)
+        for i in range(60 if self.quick else 1500):
+            n = r.choice([6, 10, 25])
+            data = make_base(r, [r.choice([1, 2, 5, 40]) for _ in range(n)], r.choice([0, 11]))
+            p = zckref.parse(data)
+            steps = r.choice([2, 3, 4])
+            vecs = []
+            for st in range(steps):
+                pr = r.choice([0.2, 0.5, 0.8])
+                v = [1 if r.random() < pr else 0 for _ in p.chunks]
+                if st and r.random() < 0.6:
+                    # make an early chunk missing that was valid before, keep a late one missing
+                    prev = vecs[-1]
+                    firstmiss = next((k for k, x in enumerate(prev) if not x), len(prev) - 1)
+                    v = list(prev)
+                    if firstmiss > 1:
+                        v[r.randrange(1, firstmiss)] = 0
+                    v[-1] = 0
+                if p.chunks[0]["len"] == 0:
+                    v[0] = 1
+                vecs.append(v)
+            out.append(dict(name="seq%d" % i, data=core.b64(data), vectors=vecs, limits=[r.sample(LIMITS, 3) for _ in vecs], tag="multi-step", zh=zh, seed=self.seed, seq=True))
         # --- medium random
         for i in range(3 if self.quick else 20):
             n = r.choice([30, 100, 300])
